@@ -261,10 +261,10 @@ func (k Keeper) GetFarmingRewardsData(ctx sdk.Context, appID uint64, coinsToDist
 
 			var rewardData []rewardstypes.RewardDistributionDataCollector
 			if !totalRewardEligibleSupply.IsZero() {
-				multiplier := sdkmath.LegacyNewDecFromInt(coinsToDistribute.Amount).Quo(totalRewardEligibleSupply)
 				for index, address := range lpAddresses {
 					if !minMasterChildPoolSupplies[index].IsZero() {
-						calculatedReward := int64(math.Floor(minMasterChildPoolSupplies[index].Mul(multiplier).MustFloat64()))
+						// multiply first: a pre-computed coins/supply multiplier keeps only 18 decimals and loses the share's precision when the supply dwarfs the coins
+						calculatedReward := int64(math.Floor(minMasterChildPoolSupplies[index].MulInt(coinsToDistribute.Amount).Quo(totalRewardEligibleSupply).MustFloat64()))
 						newData := new(rewardstypes.RewardDistributionDataCollector)
 						newData.RewardReceiver = address
 						newData.RewardCoin = sdk.NewCoin(coinsToDistribute.Denom, sdkmath.NewInt(calculatedReward))
@@ -285,9 +285,8 @@ func (k Keeper) GetFarmingRewardsData(ctx sdk.Context, appID uint64, coinsToDist
 
 	var rewardData []rewardstypes.RewardDistributionDataCollector
 	if !totalRewardEligibleSupply.IsZero() {
-		multiplier := sdkmath.LegacyNewDecFromInt(coinsToDistribute.Amount).Quo(totalRewardEligibleSupply)
 		for index, address := range lpAddresses {
-			calculatedReward := int64(math.Floor(lpSupplies[index].Mul(multiplier).MustFloat64()))
+			calculatedReward := int64(math.Floor(lpSupplies[index].MulInt(coinsToDistribute.Amount).Quo(totalRewardEligibleSupply).MustFloat64()))
 			newData := new(rewardstypes.RewardDistributionDataCollector)
 			newData.RewardReceiver = address
 			newData.RewardCoin = sdk.NewCoin(coinsToDistribute.Denom, sdkmath.NewInt(calculatedReward))
